@@ -41,8 +41,10 @@ def run(eng, rep) -> None:
     rep.rule("R14.1", "DBC: raising test total-bits > 64 dominates signal construction and returns")
     rep.rule("R14.2", "type-length function raises for String/DynamicArray/Optional and unknown classes")
     rep.rule("R14.3", "C: registered size check == layout size > 64; registration and verification dominate generation")
+    rep.rule("R14.4", "signal extents in both writers are the leaf's own (bitstart, bitlength) of the tiling layout (no override from options): signals cannot overlap or leave the message")
     rep.rule("R14.5", "the rejection exception is not swallowed before the plug-in's generate() exits; generate() is eager")
     rep.assume("leaf extents and dlc come from the tiling cursor (C04/C05/C06); cantools is not re-checked")
+    r144(eng, rep)
     # ---- R14.1 -------------------------------------------------------------------------
     dbc = prog.modules.get("fcp_dbc.dbc_writer")
     if dbc is None:
@@ -186,6 +188,25 @@ def run(eng, rep) -> None:
         for h in t.handlers:
             if any(xf.covers(ht, VE) for ht in xf.handler_types(gen, h)):
                 rep.violation("R14.5", gen.file, gen.qual, "except %s" % (norm(h.type) if h.type else ""), "generate() catches the rejection exception: a partial set of files can be returned")
+
+
+def r144(eng, rep) -> None:
+    """Re-uses the attribute-provenance decisions of C05 (DBC writer) and C06 (C writer) for start and length."""
+    from . import C05, C06
+    for mod, rule, keys in ((C05, "R05.2", ("start <-", "length <-")), (C06, "R06.1", ("start_bit <-", "bit_length <-"))):
+        sub = type(rep)(rep.pid, rep.tier, rep.root, quiet=True)
+        try:
+            mod.run(eng, sub)
+        except AnalysisError as e:
+            rep.undecided("R14.4", "-", mod.__name__.split(".")[-1], "extent provenance", "sibling analysis failed: %s" % str(e)[:120])
+            continue
+        n = 0
+        for o in sub.obls:
+            if o["rule"] == rule and o["construct"].startswith(keys):
+                n += 1
+                rep._add(o["verdict"], "R14.4", o["file"], o["function"], o["construct"], o["detail"])
+        if n == 0:
+            rep.undecided("R14.4", "-", mod.__name__.split(".")[-1], "extent provenance", "no start/length obligation produced by the sibling analysis")
 
 
 def swallow_sites(eng, xf: ExcFlow, f: FuncInfo, node: ast.AST, exc, root: str, seen=None, depth=0) -> List[str]:
